@@ -25,11 +25,11 @@ CHECKS = {
             "Checkpointer client inside the histories (poly/tet/hex meshes after deletions+collection, swaps, open cells, duplicate edges, special positions incl. NaN/-0/denormals, width-boundary meshes 255/256/257 and in thorough 65535/65536/65537): persistent properties of all 30 OVMB codec types (and the ASCII typeName list) on all 7 entity kinds with non-trivial defaults plus the tracked int/bool/double/string/Vec3d properties. (1) write->read into same kernel, polyhedral and (when the content allows) tet/hex meshes with topology check on/off and bottom-up on/off: counts, definitions handle for handle, positions bit-exact, property set, values, defaults; ASCII: second round trip is a fixed point; (2) independent decoder written from the kaitai description decodes the writer's bytes to the model; (3) three seeded legal re-encodings per image (chunks split into spans, wider handle/valence encodings, variable valence, non-zero handle offsets, float vertices when exact, DIRP after topology, optional unknown chunks) read to the same mesh; (4) topo_type()/vertex_dim()/isHexahedralMesh/isTetrahedralMesh agree with the model; (5) pending deletions: refused or logical content; restart-through-file adds loaded meshes to the population. Only benign transfer behaviour (chunked reads, writer buffer knob).",
             "ASCII values are restricted to what the text format denotes with 6 significant digits; tet/hex files are assumed to require fixed valences (the reader's documented rule); user-registered codecs and files > ~2 MiB are out of reach."),
     "C07": ("exploration", "3.C07",
-            "Fault-injecting checkpointer: images written from history meshes, then 1-3 seeded faults per load: bit flips, byte replacement, insertion, deletion, block duplication, truncation, splices, arbitrary bytes, located header/sub-header fields set to boundary values (field locations from the independent decoder), chunks dropped/duplicated/swapped, payloads shortened with consistent framing (reaches the codecs behind the framing checks), DIRP defaults shortened, TOPO handle bytes permuted; ASCII: lines/tokens dropped, repeated, replaced by non-numeric / huge / negative text; allocator faults (per-request cap 48 MiB, fail the k-th allocation). Loaded into poly/tet/hex meshes with both topology_check settings. Oracles: ASan+UBSan with container annotations, step-clock liveness (budget 400k + 6000 steps/byte, overrun only counts without progress in the trailing quarter), outcome in {error, false, bad_alloc/length_error/std exception}, and on success: every stored handle in range, every property sized to its entity count, the incidence battery runs on the result.",
+            "Fault-injecting checkpointer: images written from history meshes, then 1-3 seeded faults per load: bit flips, byte replacement, insertion, deletion, block duplication, truncation, splices, arbitrary bytes, located header/sub-header fields set to boundary values (field locations from the independent decoder), chunks dropped/duplicated/swapped, payloads shortened with consistent framing (reaches the codecs behind the framing checks), DIRP defaults shortened, TOPO handle bytes permuted, spans grown together with their payload, handle encoding None, faults applied to seeded legal re-encodings of the image as well as to the writer's bytes; ASCII: lines/tokens dropped, repeated, replaced by non-numeric / huge / negative text; allocator faults (per-request cap 48 MiB, fail the k-th allocation). Loaded into poly/tet/hex meshes with both topology_check settings. Oracles: ASan+UBSan with container annotations, step-clock liveness (budget 250M + 6000 instrumented edges per image byte; an overrun only counts without consumed bytes or allocations in the trailing quarter), outcome in {error, false, bad_alloc/length_error/std exception}, and on success: every stored handle in range, every property sized to its entity count, the incidence battery runs on the result.",
             "A clean batch is evidence over the sampled fault space only; faults needing more than three coordinated field edits are out of reach."),
     "C18": ("fault_enumeration", "3.C18",
             "Per-image sweeps over OVMB images written from history meshes: every truncation length (as short image and as 'size reported, EOF early'), every located header / chunk-header / sub-header field x ~20 boundary values, every chunk dropped / duplicated / swapped with its successor, input stream failing from every byte position (plus seek failure), output stream failing from every byte position. Thorough: complete per image (stride 1); quick: strided (about 48 positions per image plus all chunk boundaries). Oracle three-valued through the independent decoder: INVALID-for-a-listed-reason (prefix, magic, header version, reserved/padding bytes, chunk length, span continuity and range, encoding enums vs. valence mode, handle range, EOF chunk missing/duplicated/not last, second DIRP, declared counts not delivered) => result must not be Ok; VALID => Ok with the decoder's mesh (only demanded with topology_check off); UNDECIDED (file_version, flags, compression, unknown chunk types, payload bytes) => safety only. Stream failures on either side must never yield Ok.",
-            "Path overloads (ovmb_write(path): failure only at close) are not yet behind the syscall seam; complete only per image, seeded exploration over images."),
+            "Path overloads (ovmb_write(path), ovmb_read(path)) run behind the syscall seam (ENOSPC after p bytes, read(2) EIO after p bytes); the first and last padding byte of every chunk are swept too. Complete only per image; seeded exploration over images."),
     "C08": ("exploration", "3.C08",
             "On every live edge and face of every reached state: opposite halfedge swaps endpoints, halfface(opposite) is the reversed list of opposite halfedges, opposite twice is the identity, all handle conversions (static and member) are mutually inverse on the handles of the state, on boundary indices and on 16 random indices < 2^30 per state; every face is a closed loop; vertex/halfedge/edge circulators of the two sides enumerate the same cycle in opposite directions; next/prev_halfedge_in_halfface are inverse steps.",
             "The clause 'for every index in [0,2^30) exhaustively' is enumeration of a pure function and is outside this technique: only sampled indices are checked."),
@@ -41,16 +41,16 @@ CHECKS = {
             "Where duplicate edges/faces or faces with repeated vertices make several answers qualify or the documented 'first three checked' shortcut ambiguous, the case is skipped."),
     "C11": ("exploration", "3.C11",
             "Builder issues valid and invalid argument lists (open/reversed/repeated halfedges, missing/doubled/flipped halffaces, both orientations, wrong valence for tet/hex) with topology check on all three kernels, with and without vertex incidences and in deferred states with deleted edges between the vertices; oracle = acceptance predicate of the statement, exact definition of the appended entity, full snapshot equality after a rejected call, add_edge dedup returns a live joining edge.",
-            "Empty lists are not generated yet (planned); hex checked add_cell may store a permuted valid list reordered (C16 judges the order)."),
+            "Empty lists, same-size duplicated lists and all-sides-flipped cells are generated; hex checked add_cell may store a permuted valid list reordered (C16 judges the order)."),
     "C12": ("exploration", "3.C12",
             "Toggler client disables/re-enables any subset of vertex/edge/face incidences anywhere in histories with deletions in all modes, swaps and collections; every state is compared with the reference model (which has no caches, i.e. is the always-enabled twin), ASan with container annotations watches the cleared cache vectors, and after re-enabling the C01 brute-force battery must hold.",
             "Queries are only issued for enabled kinds; order of re-computed incidences is compared as multisets."),
     "C13": ("exploration", "3.C13",
             "Forker client copy-constructs, assigns, self-assigns and destroys replicas (<=3) at arbitrary instants; the new replica must equal the model clone (entities, definitions, positions, deletion state, modes, incidence flags, persistent properties by value, non-persistent absent), and after every later op on one replica every other replica's structure, property values and registry are re-verified unchanged; handles held into an assigned-to mesh stay usable (ASan), sized, not findable.",
-            "Cross-kernel assignment not yet covered (planned)."),
+            "Cross-kernel copies (tet/hex kernel -> polyhedral kernel and the kernels' own copy/assign) are covered; copying into a more specific kernel is not offered by the API."),
     "C14": ("exploration", "3.C14",
             "Registry histories over 5 value types x 7 entity kinds x a pool of 4 colliding names with 8 client handle slots: request/create_shared/create_persistent/create_private/get/exists/set_shared/set_persistent/set_name, handle copy/move/drop, clear_props, clear, mesh copy/assign/destroy; oracle = registry state-machine model (lookup results, same-storage identity, exceptions and nothing-changed, n_props/n_persistent_props, persistent=>shared=>named-unique), ASan for every destruction order, detached handles keep size and values.",
-            "create_shared/persistent with the empty name are not generated."),
+            "create_shared/persistent with the empty name are generated (must throw and change nothing); at most 8 client handle slots and 4 names per run."),
     "C15": ("exploration", "3.C15",
             "Tet-kernel histories (add via halffaces and via the kernel's vertex entry points, glue along faces/edges/vertices, rejected adds, deletions in all modes, swaps, collections, edge collapses): shape invariants (3 edges per face, 4 faces / 4 distinct vertices per cell); for every cell x halfface x halfedge: get_cell_vertices (4 forms), halfface_opposite_vertex / vertex_opposite_halfface inverse, tv_iter incl. circulator protocol; TetTopology for all 12 (halfface, start vertex) choices x 2 constructors plus the (cell, vertex) and (cell) constructors: four distinct vertices, 12 labelled halfedges join their labelled vertices, 20 labelled inner/outer halffaces have the labelled vertex cycle and belong to the cell (outer: opposite), get_label inverts the accessors, TriangleTopology agrees. collapse_edge on halfedges that satisfy the link condition (computed on the model's simplicial closure): resulting oriented cell set == model (cells without both a and b, a->b), returned handle designates b (uid tag), in all four deletion modes.",
             "Collapse candidates exclude meshes with duplicate edges/faces; after a collapse the model is re-synchronised from the mesh (entity-level renumbering of a collapse is not specified), property values are compared again from then on."),
